@@ -370,10 +370,16 @@ pub fn leaf_alphabet() -> Vec<Value> {
         json!(1e300),
         json!(18446744073709551615u64),
         json!(-9223372036854775808i64),
+        json!(-0.0),
+        json!(100.0),
+        json!(0.1),
+        json!(5e-324),
+        json!(1.7976931348623157e308),
+        json!(9007199254740993u64),
     ];
     for s in [
         "", "x", " ", "a,b", "\":[", "\": ", "a  b", "\\", "\"", "\u{0}", "\u{7f}", "\u{80}", "\u{e9}", "\u{7ff}", "\u{800}",
-        "\u{ffff}", "\u{10000}", "\u{1F600}", "\u{10FFFF}", "a:b", "[1,2]", "{\"k\":1}", "x\",\"y", "\\\":", "\n\t",
+        "\u{ffff}", "\u{10000}", "\u{1F600}", "\u{10FFFF}", "a:b", "[1,2]", "{\"k\":1}", "x\",\"y", "\\\":", "\n\t", "a~b", "~", "a.b.c", "eyJhbGciOiJIUzI1NiJ9", "WyJzYWx0IiwgIm4iLCAxXQ", "...", "_sd",
     ] {
         v.push(json!(s));
     }
@@ -388,6 +394,9 @@ pub fn name_alphabet() -> Vec<&'static str> {
     vec![
         "a", "ab", "", " ", "\u{e9}", "\u{1F600}", "x\"y", "x\\y", "iss", "exp", "cnf", "_sdx", "_s", "..", "....", "a.b",
         "a[0]", "a,b", "a\":b", "[0]", "$", "~", "\u{0}", "\u{1f}", "\u{8}\u{c}", "a\nb", "\t", "\u{7f}", "\u{80}", "\u{2028}",
+        // registered JWT / JWS / SD-JWT member names used as ordinary claim names (top-level aud, non-string sub and
+        // non-numeric nbf are outside the claim domain; a numeric nbf in the past is inside it)
+        "jti", "typ", "alg", "kid", "vct", "nonce", "sd_hash", "kb_jwt", "disclosures", "payload", "protected", "signature", "jwk", "nbf",
         // names that some API might treat as magic
         "*", "**", "?", "@", "#", "%", "+", "-", "_", "__proto__", "true", "false", "null", "0", "1", "[]", "{}", "all", "a ", " a", "a\u{a0}", "A",
     ]
